@@ -9,7 +9,8 @@ Theorem c16_source_shape :
   schema_info_schema_tables_ok = true /\ schema_show_statement_to_info_schema_query_ok = true /\
   schema_com_field_list_to_show_statement_ok = true /\ utils_dict_depth_ok = true /\
   session_session_show_variables_ok = true /\ session_session_show_ok = true /\ session_session_describe_middleware_ok = true /\
-  connection_connection_handle_field_list_ok = true.
+  connection_connection_handle_field_list_ok = true /\ schema_ensure_info_schema_ok = true /\ schema_infoschema_query_ok = true /\
+  schema_infoschema_from_mapping_ok = true /\ session_session_query_info_schema_ok = true /\ session_session_show_middleware_ok = true.
 Proof. repeat split; reflexivity. Qed.
 
 (* the regular expression built from a LIKE pattern matches exactly the strings SQL LIKE matches (whole string,
